@@ -155,7 +155,7 @@ def run(ctx):
                  kind=case["kind"], r=r, lc=case["lc"], scale_decade=int(np.log10(case["scale"])))
 
     # (b) real fits
-    nfit = 40 if ctx.thorough else 10
+    nfit = 48 if ctx.thorough else 12
     pending = []
     for t in range(nfit):
         n = int(rng.integers(12, 40))
@@ -171,10 +171,10 @@ def run(ctx):
         lc = float(rng.choice([1.0, 1.0, 2.0]))
         # every route into fuzzy_simplicial_set: exact small-data path (dense / CSR / precomputed distances), the
         # approximate-neighbour path (forced) and a user-supplied kNN table; quick tier cycles so each is hit
-        forms = ["dense", "csr", "precomputed", "dense-approx", "knn"]
+        forms = ["dense", "csr", "precomputed", "dense-approx", "knn", "sparse-precomputed"]
         form = forms[t % len(forms)] if t < 2 * len(forms) else str(rng.choice(forms))
         metric = str(rng.choice(["euclidean", "manhattan", "cosine"]))
-        if form in ("dense-approx", "knn"):
+        if form in ("dense-approx", "knn", "sparse-precomputed"):
             # the parameters that are easy to mix up downstream: make them differ
             r, lc = float(rng.choice([0.0, 0.25, 0.5])), float(rng.choice([1.0, 2.0]))
         D = pairwise_distances(X.astype(np.float64), metric=metric)
@@ -202,6 +202,10 @@ def run(ctx):
                     kidx, kdist = kidx_w[:, :k], kdist_w[:, :k]
                     m = umap.UMAP(metric=metric, precomputed_knn=(kidx_w, kdist_w.astype(np.float32), None), **kw).fit(X)
                     own_table = (kidx.copy(), kdist.astype(np.float32))
+                elif form == "sparse-precomputed":
+                    # a sparse distance matrix (stored entries = known distances; the diagonal is not stored): fit reads each
+                    # sample's neighbours off its row
+                    m = umap.UMAP(metric="precomputed", **kw).fit(scipy.sparse.csr_matrix(D.astype(np.float32)))
                 else:
                     m = umap.UMAP(metric="precomputed", **kw).fit(D.astype(np.float32))
         except Exception as e:  # noqa
